@@ -6,7 +6,7 @@ from harness import graphs as G
 from harness import strategies as S
 from harness.core import Acc, Violation, lib, must, must_raise
 from harness.hyp import job_seed, run_property, scaled
-from props.gcommon import compare_sets, pdag_codes, result_set, to_np
+from props.gcommon import DTYPE_NAMES, compare_sets, pdag_codes, result_set, spoil, to_np
 
 PROP = "C09"
 RULE = ("Every PDAG with acyclic directed part on p<=4 nodes (quick; 3,675 graphs) and p=5 (thorough; 765,664), plus "
@@ -62,7 +62,7 @@ def check(case):
     P = G.rows_from_lists(case["P"])
     p = len(P)
     E = G.extensions_table(P) if p <= 5 else G.extensions_bruteforce(P)
-    A = to_np(P, float if case.get("dtype") == "float" else int)
+    A = to_np(P, case.get("dtype", "int"))
     keep = A.copy()
     lab = []
 
@@ -97,6 +97,8 @@ def check(case):
             compare_sets(gs, n, E, "all_dags(maximally_orient(P))", "P=%s" % case["P"])
             lab.append("alldags")
         lab.append("has_extension")
+        spoil(D)
+        spoil(M)
     if not (A == keep).all():
         raise Violation("input_modified", "pdag_to_dag / maximally_orient modified its argument")
     return lab
@@ -106,7 +108,7 @@ def _run_exh(acc, job):
     for k, (code, P) in enumerate(pdag_codes(job["p"])):
         if k % job["nshards"] != job["shard"]:
             continue
-        case = {"sub": "pdag_exh", "P": G.lists_from_rows(P), "dtype": "float" if code % 2 else "int",
+        case = {"sub": "pdag_exh", "P": G.lists_from_rows(P), "dtype": DTYPE_NAMES[code % 6],
                 "alldags": job["p"] <= 4 or code % 53 == 0}
         try:
             lab = check(case)
@@ -122,7 +124,7 @@ def _uniform_case(draw):
     P = draw(S.pdag(6, 8, max_undirected=9, weights=(4, 2, 2)))
     if draw(st.integers(0, 2)) == 0:
         P = draw(S.embedded(draw(S.pdag(3, 6, max_undirected=8, weights=(2, 3, 3)))))
-    return {"sub": "pdag_hyp", "P": P, "dtype": draw(st.sampled_from(["int", "float"])), "alldags": draw(st.integers(0, 5)) == 0}
+    return {"sub": "pdag_hyp", "P": P, "dtype": draw(st.sampled_from(DTYPE_NAMES)), "alldags": draw(st.integers(0, 5)) == 0}
 
 
 @st.composite
@@ -152,7 +154,7 @@ def _meek_case(draw):
         chosen = draw(st.lists(st.sampled_from(rev), min_size=min(lo, len(rev)), max_size=min(3, len(rev)), unique=True))
         for (i, j) in chosen:          # orient i -> j as in the DAG (background knowledge)
             cp[j] &= ~(1 << i)
-    return {"sub": "pdag_meek", "P": G.lists_from_rows(tuple(cp)), "dtype": "int", "alldags": draw(st.integers(0, 5)) == 0}
+    return {"sub": "pdag_meek", "P": G.lists_from_rows(tuple(cp)), "dtype": draw(st.sampled_from(DTYPE_NAMES)), "alldags": draw(st.integers(0, 5)) == 0}
 
 
 def plan(tier, seed):
